@@ -67,7 +67,20 @@ def guard_case(rep, drv, rnd, i):
         tests.append(('c%d' % n, [V('A'), V('B')], ('conj', ('call', 'it', [V('A')]), ('conj', ('call', 'it', [V('B')]),
                                                    ('call', name, [V('A'), V('B')] + [V('A')] * (ar - 2)))), True))
     prog += tests
+    # a cut that closes the (last) clause behind builtin goals: the builtin may have further answers
+    prog += [
+        ('take', [V('X')], ('conj', ('call', 'retract', [('F', 'item', [V('X')])]), 'cut'), True),
+        ('pickc', [V('X')], ('conj', ('call', 'call', [('A', 'it'), V('X')]), 'cut'), True),
+        ('picko', [V('X')], ('conj', ('call', 'once', [('F', 'it', [V('X')])]), ('conj', ('call', 'it', [V('Y')]), 'cut')), True),
+        ('pickf', [V('L')], ('conj', ('call', 'findall', [V('X'), ('F', 'it', [V('X')]), V('L')]), ('conj', ('call', 'it', [V('Y')]), 'cut')), True),
+        ('pickn', [V('X')], ('conj', ('call', 'it', [V('X')]), ('conj', ('call', '\\=', [V('X'), ('A', atoms[0])]), 'cut')), True),
+    ]
     ops = [('load', 'overwrite', prog)]
+    for a in rnd.sample(atoms, rnd.randint(2, 3)):
+        ops.append(('assert', 'item', 'z', [[Sym('a'), a]]))
+    for name in ['take', 'pickc', 'picko', 'pickf', 'pickn']:
+        ops.append(('query', name, ('all',), [[Sym('v'), 0]]))
+    ops.append(('query', 'item', ('all',), [[Sym('v'), 0]]))
     for t in tests:
         if t[0].startswith('c'):
             ops.append(('query', t[0], ('all',), [[Sym('v'), 0], [Sym('v'), 1]]))
